@@ -139,6 +139,8 @@ func init() {
 		for m := 0; m < 3; m++ {
 			alpha = append(alpha,
 				symOp{Op: "intern", M: m, Name: "a"},
+				symOp{Op: "intern", M: m, Name: ""}, // the empty name is a name like any other
+				symOp{Op: "str2sym", M: m, Name: "b"},
 				symOp{Op: "intern", M: m, Name: "__gensym", Shaped: true, Off: 0},
 				symOp{Op: "intern", M: m, Name: "__gensym", Shaped: true, Off: 1},
 				symOp{Op: "str2sym", M: m, Name: "g", Shaped: true, Off: 0},
@@ -189,7 +191,7 @@ func init() {
 				n = 5000
 			}
 		}
-		pool := []string{"a", "b", "c", "x1", "x2", "g", "g1"}
+		pool := []string{"a", "b", "c", "x1", "x2", "g", "g1", "", " ", "0"}
 		for i := 0; i < n; i++ {
 			if !c.mine(idx) {
 				idx++
